@@ -1498,6 +1498,40 @@ val gen_md_doc :
   mode -> n list option -> n list -> n list list -> n list list -> n -> elem
   list
 
+val is_az : n -> bool
+
+val is_09 : n -> bool
+
+val keeps_escape : n -> bool
+
+val cleanup : n list -> n list
+
+val take_digits : n list -> n list * n list
+
+val quantifier_body : n list -> (n list * n list) option
+
+val lT4 : n list
+
+val gT4 : n list
+
+val mark_quantifiers : nat -> n list -> n list
+
+val escape_curly : n list -> n list
+
+val pstarts : n list -> n list -> bool
+
+val until_gt4 : n list -> n list -> (n list * n list) option
+
+val restore_quantifiers : nat -> n list -> n list
+
+val misused_repetition : n list -> n list
+
+val class_closes_later : n -> n list -> bool
+
+val misused_class : bool -> n list -> n list
+
+val regex_prepare : n list -> n list
+
 val make_exp : bool -> bool -> (nat -> bool) -> nat exp
 
 val exp_opt : nat exp -> bool
